@@ -32,7 +32,7 @@ class C02(core.Check):
                    'fix whether it takes the address before or after the directive)',
                    'layout-affecting expressions use literals only; negative fill counts are not generated')
     chunk = 600
-    required_buckets = {b: 3 for b in ['ref:forward', 'ref:backward', 'ref:in-expression', 'ref:byte-extraction',
+    required_buckets = {b: 3 for b in ['predefined-data-block-and-no-origin-in-front', 'labels-that-differ-in-the-scope-prefix-only', 'ref:forward', 'ref:backward', 'ref:in-expression', 'ref:byte-extraction',
                                        'ref:difference', 'org:forward', 'org:backwards', 'org:zone-relative', 'zone-switch',
                                        'align:from-aligned', 'align:from-unaligned', 'align:default-page',
                                        'align:explicit-page', 'align:non-power-of-2', 'muted-line', 'excluded-line',
@@ -110,6 +110,8 @@ class C02(core.Check):
                 'tags': sorted(tags)}
 
     def cases(self, tier, seed):
+        yield from self.predefined_data_cases()
+        yield from self.prefix_twin_cases()
         n_pre = 200
         n = 300 if tier == 'quick' else 8000
         for i in range(n_pre + n):
@@ -230,6 +232,92 @@ class C02(core.Check):
                                          'probes': ['steps', 'sizes', 'cursor'], 'step_limit': 3_000_000}],
                                'meta': {'lines': {}, 'image': layout.image(res.M, 0, None, 0).hex(), 'labels': lab},
                                'tags': sorted({'include-sweep', 'include-from:' + zn, 'included-file:' + inc_shape, 'ref:forward', 'ref:backward'})}
+
+    def predefined_data_cases(self):
+        """data blocks predefined by the configuration lie at their configured addresses and take no part in the placing of the
+        program's lines: the first line sits at the origin, labels count from there, the block's name is its address"""
+        k = 0
+        for blocks in ([('io_blk', 0x40, 4)], [('io_blk', 0x08, 1)], [('io_blk', 0x40, 2), ('tbl_b', 0x60, 5)], [('io_blk', 0x1000, 3)]):
+            for origin in (None, 0x10):
+                for lead in ('bytes', 'label', 'align', 'zone-relative-origin'):
+                    k += 1
+                    data = [{'name': n_, 'address': a_, 'value': 0x5A, 'size': z_} for n_, a_, z_ in blocks]
+                    isa = gen_prog.layout_isa(16, data=data, origin=origin)
+                    first = {'bytes': [], 'label': [], 'align': [{'k': 'align', 'p': 4}],
+                             'zone-relative-origin': [{'k': 'org', 'addr': (origin or 0) + 2, 'zone_name': 'GLOBAL'}]}[lead]
+                    stream = first + [{'k': 'label', 'name': 'start_l'}, {'k': 'data', 'width': 1, 'vals': [1, 2]},
+                                      {'k': 'ref2', 'names': ['start_l', 'after_l'] + [n_ for n_, _, _ in blocks]},
+                                      {'k': 'label', 'name': 'after_l'}, {'k': 'data', 'width': 1, 'vals': [3]}]
+                    for l in stream:
+                        if l['k'] == 'ref2':
+                            l.update(k='data', width=2, vals=[0] * len(l['names']))
+                    res = layout.layout(stream, 16, origin=origin or 0, predefined_data=data, size_of=lambda l, a: l['width'] * len(l['vals']))
+                    if res.kind != 'ACCEPT' or layout.overlaps(res)[0] != 'ACCEPT':
+                        continue
+                    lab = {l['name']: l['addr'] for l in stream if l['k'] == 'label'}
+                    lab.update({n_: a_ for n_, a_, _ in blocks})
+                    for l in stream:
+                        if 'names' in l:
+                            l['vals'] = [lab[n] for n in l['names']]
+                    layout.memory_map(res, lambda l: layout.data_bytes(l['width'], l['vals'], 'big'))
+
+                    def text(l):
+                        if 'names' in l:
+                            return '.2byte ' + ', '.join(l['names'])
+                        if l['k'] == 'data':
+                            return '.byte ' + ', '.join(str(v) for v in l['vals'])
+                        return gen_prog.render_line(l, None)
+                    fn, itext = isamod.render_isa(isa, 'json')
+                    yield {'runs': [{'files': {fn: itext, 'p.asm': '\n'.join(text(l) for l in stream) + '\n'}, 'argv': ['compile', '-c', fn, 'p.asm', '-o', 'out.bin'],
+                                     'probes': ['steps', 'sizes', 'cursor'], 'step_limit': 3_000_000}],
+                           'meta': {'lines': {}, 'image': layout.image(res.M, 0, None, 0).hex(), 'labels': lab},
+                           'tags': sorted({'predefined-data-block-and-no-origin-in-front', 'first-line:' + lead, 'ref:forward', 'ref:backward'})}
+
+    def prefix_twin_cases(self):
+        """labels whose names differ in the scope prefix only (x, _x, .x) are three labels with three addresses, whichever of
+        them a reference names and from wherever it does"""
+        k = 0
+        for base in ('delay', 'x', 'loop_1'):
+            for order in (('', '_', '.'), ('_', '', '.'), ('', '.', '_')):
+                for org in (0x100, 0):
+                    k += 1
+                    names = [p_ + base for p_ in order]
+                    stream = [{'k': 'org', 'addr': org, 'zone_name': None}]
+                    for j, nm in enumerate(names):
+                        if nm.startswith('.') and j == 0:
+                            continue
+                        stream += [{'k': 'label', 'name': nm}, {'k': 'data', 'width': 1, 'vals': [0x10 + j] * (j + 1)}]
+                        if not nm.startswith('.'):
+                            # right behind a non-local label, every name defined so far (and the later ones of wider scope)
+                            stream.append({'k': 'ref2', 'names': [n_ for n_ in names[:j + 1] if not n_.startswith('.')] +
+                                           [n_ for n_ in names[j + 1:] if not n_.startswith('.')]})
+                    last_local = [n_ for n_ in names if n_.startswith('.')]
+                    stream.append({'k': 'ref2', 'names': [n_ for n_ in names if not n_.startswith('.')] +
+                                   (last_local if stream and names.index(last_local[0]) == len(names) - 1 else [])})
+                    for l in stream:
+                        if l['k'] == 'ref2':
+                            l.update(k='data', width=2, vals=[0] * len(l['names']))
+                    res = layout.layout(stream, 16, origin=0, size_of=lambda l, a: l['width'] * len(l['vals']))
+                    if res.kind != 'ACCEPT' or layout.overlaps(res)[0] != 'ACCEPT':
+                        continue
+                    lab = {l['name']: l['addr'] for l in stream if l['k'] == 'label'}
+                    for l in stream:
+                        if 'names' in l:
+                            l['vals'] = [lab[n] for n in l['names']]
+                    layout.memory_map(res, lambda l: layout.data_bytes(l['width'], l['vals'], 'big'))
+
+                    def text(l):
+                        if 'names' in l:
+                            return '.2byte ' + ', '.join(l['names'])
+                        if l['k'] == 'data':
+                            return '.byte ' + ', '.join(str(v) for v in l['vals'])
+                        return gen_prog.render_line(l, None)
+                    isa = gen_prog.layout_isa(16)
+                    fn, itext = isamod.render_isa(isa, 'json')
+                    yield {'runs': [{'files': {fn: itext, 'p.asm': '\n'.join(text(l) for l in stream) + '\n'}, 'argv': ['compile', '-c', fn, 'p.asm', '-o', 'out.bin'],
+                                     'probes': ['steps', 'sizes', 'cursor'], 'step_limit': 3_000_000}],
+                           'meta': {'lines': {}, 'image': layout.image(res.M, 0, None, 0).hex(), 'labels': lab},
+                           'tags': sorted({'labels-that-differ-in-the-scope-prefix-only', 'ref:forward', 'ref:backward'})}
 
     def judge(self, case, outcomes):
         o = outcomes[0]
